@@ -77,6 +77,13 @@ def run(ctx):
     share(ctx, c09, {"R09.6": "R03.3"}, only=("retain-iff-now-le-expiry", "now-is-clock-now"))
     stale_entries(ctx, T)
     no_overwrite(ctx, "R03.5")
+    # ---- R03.8 a read waits for the entry: DashMap's try_* lookups report `Locked` whenever another thread holds the shard
+    # (an insert, update, delete or sweep of an *unrelated* key in the same shard) and every caller here treats that as
+    # absent - an accepted, live key would read as gone under traffic on other keys
+    for m in ("try_get", "try_get_mut"):
+        for f_, bb_, t_ in S.ops.get(m, []):
+            ctx.bad("R03.8", "%s|non-blocking-store-lookup" % f_.name,
+                    "store lookups block on the shard lock (get / get_mut): DashMap::%s answers Locked while any writer holds the shard, which reads as 'absent'" % m, f_.where(bb_))
     # ---- R03.7 the space test of a put sees the space that is really free: when the worker retires a dead incarnation of
     # the put's key (expired, not yet swept), it does so *before* admission runs - a dead entry still charged during
     # admission is counted as memory pressure and makes a put that fits evict live, unrelated keys
